@@ -209,7 +209,7 @@ def run(ctx) -> None:
     eq = any(isinstance(n, ast.If) and find_all("len(set(_L)) > 1", n.test) and any(isinstance(x, ast.Raise) for x in ast.walk(n)) for n in walk_local(gz.node))
     rep.add("C10.R4", f"{gz.qname}:position-wise", ok and eq, gz.loc(), "zip: equal-length check, then one dict per increasing index with v[i] for every mapped list" if ok and eq else "zip expansion is not position-wise over an increasing index after an equal-length check")
     ok = any(isinstance(n, ast.For) and isinstance(n.iter, ast.Call) and "product" in (dotted(n.iter.func) or "") and n.iter.args and isinstance(n.iter.args[0], ast.Starred) for n in walk_local(gp.node))
-    keys_ok = bool(solve(["_K = list(mapped_values.keys())", "[mapped_values[_X] for _X in _K]"], gp.node)) or bool(solve(["_K = list(mapped_values)", "[mapped_values[_X] for _X in _K]"], gp.node))
+    keys_ok = bool(solve(["_K = list(_M.keys())", "[_M[_X] for _X in _K]"], gp.node)) or bool(solve(["_K = list(_M)", "[_M[_X] for _X in _K]"], gp.node))
     rep.add("C10.R4", f"{gp.qname}:row-major", ok and keys_ok, gp.loc(), "product: itertools.product(*lists) with lists in key order (row-major)" if ok and keys_ok else "product expansion is not itertools.product over the value lists in key order")
     ok = any(isinstance(n, (ast.Assign, ast.AnnAssign)) and isinstance(n.value, ast.DictComp) and isinstance(n.value.generators[0].iter, ast.Name) and n.value.generators[0].iter.id == "map_over" for n in walk_local(gm.node))
     rep.add("C10.R4", f"{gm.qname}:key-order", ok, gm.loc(), "mapped values are collected in map_over order" if ok else "mapped values are not collected in map_over order (product order would follow dict/set order)")
